@@ -2,15 +2,19 @@
 //
 // core/mr is rewritten onto the scheduler shim; every scenario is one small instance (items,
 // workers, fan-out, entry point) with at most one or two faults placed in a user function
-// (generator panic, mapper cancel/panic/stall, reducer cancel/panic/early write/no write,
-// context deadline on the virtual clock or cancellation by another thread). The user functions
+// (generator panic, mapper cancel/panic/stall, reducer cancel/panic/early write/no write/stops
+// reading without draining, context deadline on the virtual clock, cancellation by another thread
+// or a context that is over before the call), run through every public entry point and every way
+// of passing options; mapper fan-out up to 3, i.e. more than the collector holds (back-pressure:
+// a mapper parked inside Writer.Write when the call ends). The user functions
 // log what they do on the execution's totally ordered log; the oracle is written from the
 // property statement:
-//   no fault   → every item mapped exactly once, every written value reduced exactly once,
-//                result = the reducer's output (or ErrReduceNoOutput), ≤ W mappers at a time;
-//   with fault → the call returns (no deadlock) a justified error / re-raises a user panic,
-//                never a runtime panic, never maps an item twice, and once the user functions
-//                have returned no thread started by the call is still alive.
+//
+//	no fault   → every item mapped exactly once, every written value reduced exactly once,
+//	             result = the reducer's output (or ErrReduceNoOutput), ≤ W mappers at a time;
+//	with fault → the call returns (no deadlock) a justified error / re-raises a user panic,
+//	             never a runtime panic, never maps an item twice, and once the user functions
+//	             have returned no thread started by the call is still alive.
 package main
 
 import (
@@ -32,22 +36,48 @@ import (
 type spec struct {
 	Entry    string // MapReduce | MapReduceVoid | MapReduceChan | ForEach | Finish | FinishVoid
 	N, W     int
-	Fan      int    // values each mapper writes
-	GenPanic int    // generator panics before item i (-1: never)
+	Fan      int // values each mapper writes
+	GenPanic int // generator panics before item i (-1: never)
 	// generator stalls on a gate before item i (i == N: after the last item, before it returns); -1: never.
 	// GenStall "held": the gate opens only after the call has returned (like a stalled mapper);
 	// "slow": a harness thread opens it at a moment chosen by the explorer (before or after the
 	// context ended / the cancel / the return)
 	GenStallAt int
 	GenStall   string
-	MapFault   string // "", cancel-err, cancel-nil, panic, stall (before writing), write-stall (writes, then stalls)
-	MapAt      int
+	// "", cancel-err, cancel-nil, panic, stall (before writing), write-stall (writes, then stalls);
+	// cancel-each: EVERY mapper invocation cancels (competing cancels)
+	MapFault string
+	MapAt    int
 	// drain-write (reads everything, then writes) | no-write | write-first (writes before reading,
 	// then drains) | write-mid (writes after 1 read, then drains) | write-early (writes after 1
 	// read and returns) | cancel | panic
 	Reducer string
-	Ctx     string // "", timeout, cancel
-	bound   *vx.Bounds // own exploration bounds (nil: the tier's)
+	Ctx     string // "", timeout, cancel (by another thread, at a moment the explorer chooses), ended (before the call)
+	// how the options are passed: "" = WithWorkers(W) [+ WithContext]; "none" = no option at all
+	// (16 workers, background context); "w0" / "w-1" = WithWorkers(0) / WithWorkers(-1): one worker;
+	// "ctx-first" = WithContext before WithWorkers
+	Opts  string
+	bound *vx.Bounds // own exploration bounds (nil: the tier's)
+}
+
+// workers the call is allowed to run concurrently, as the options say
+func (s spec) workers() int {
+	switch s.Opts {
+	case "none":
+		return 16
+	case "w0", "w-1":
+		return 1
+	}
+	return s.W
+}
+
+// reducers that never write an output
+func silentReducer(r string) bool {
+	switch r {
+	case "no-write", "no-read", "read1-return", "giveup", "read1-giveup", "cancel-first":
+		return true
+	}
+	return false
 }
 
 func (s spec) name() string {
@@ -67,11 +97,14 @@ func (s spec) name() string {
 	if s.Ctx != "" {
 		n += "-ctx:" + s.Ctx
 	}
+	if s.Opts != "" {
+		n += "-opts:" + s.Opts
+	}
 	return n
 }
 
 func (s spec) faulty() bool {
-	return s.GenPanic >= 0 || s.MapFault != "" || s.Ctx != "" || s.Reducer == "cancel" || s.Reducer == "panic"
+	return s.GenPanic >= 0 || s.MapFault != "" || s.Ctx != "" || s.Reducer == "cancel" || s.Reducer == "cancel-first" || s.Reducer == "panic"
 }
 
 type userPanic struct{ who string }
@@ -80,12 +113,12 @@ var errMapper = errors.New("mapper-cancel-error")
 var errReducer = errors.New("reducer-cancel-error")
 
 type obs struct {
-	gauge    vsched.Var
-	maxGauge int
-	ret      any
-	err      error
-	panicked any
-	returned bool
+	gauge          vsched.Var
+	maxGauge       int
+	ret            any
+	err            error
+	panicked       any
+	returned       bool
 	ctxErrAtReturn error
 }
 
@@ -99,6 +132,11 @@ func scenario(s spec) vx.Scenario {
 		if s.Ctx != "" {
 			if s.Ctx == "timeout" {
 				ctx, cancelCtx = vsched.CtxWithTimeout(context.Background(), time.Second)
+			} else if s.Ctx == "ended" {
+				// the context is over before the call begins
+				ctx, cancelCtx = vsched.CtxWithCancel(context.Background())
+				vsched.Log("ctxcancel")
+				cancelCtx()
 			} else {
 				ctx, cancelCtx = vsched.CtxWithCancel(context.Background())
 				c := cancelCtx
@@ -109,9 +147,44 @@ func scenario(s spec) vx.Scenario {
 				})
 			}
 		}
-		opts := []mr.Option{mr.WithWorkers(s.W)}
-		if s.Ctx != "" {
+		var opts []mr.Option
+		switch s.Opts {
+		case "none":
+		case "w0":
+			opts = append(opts, mr.WithWorkers(0))
+		case "w-1":
+			opts = append(opts, mr.WithWorkers(-1))
+		case "ctx-first":
+			opts = append(opts, mr.WithContext(ctx), mr.WithWorkers(s.W))
+		default:
+			opts = append(opts, mr.WithWorkers(s.W))
+		}
+		if s.Ctx != "" && s.Opts != "ctx-first" {
 			opts = append(opts, mr.WithContext(ctx))
+		}
+		// "the reducer learns about the failure": closed by the mapper that cancelled, after its
+		// cancel call came back (only made when the reducer waits for it)
+		var failed chan struct{}
+		if (s.Reducer == "giveup" || s.Reducer == "read1-giveup") && strings.HasPrefix(s.MapFault, "cancel-") {
+			failed = vsched.MakeChan[struct{}](0)
+		}
+		tellReducer := func() {
+			if failed != nil {
+				vsched.Close(failed)
+			}
+		}
+		// the reducer waits until it knows that the call has been cancelled / the context has ended
+		waitFailure := func() {
+			vsched.Log("red-wait")
+			switch {
+			case failed != nil && s.Ctx != "":
+				vsched.Select(false, vsched.RecvCase[struct{}](failed), vsched.RecvCase(ctx.Done()))
+			case failed != nil:
+				vsched.Recv[struct{}](failed)
+			default:
+				vsched.Recv(ctx.Done())
+			}
+			vsched.Log("red-giveup")
 		}
 		genGate := gate
 		if s.GenStall == "slow" {
@@ -135,12 +208,12 @@ func scenario(s spec) vx.Scenario {
 					}
 					vsched.Log("stall-end generator")
 				}
-				if i == s.N {
-					break
-				}
-				if i == s.GenPanic {
+				if i == s.GenPanic { // i == N: after the last item
 					vsched.Log("panic gen")
 					panic(userPanic{"generator"})
+				}
+				if i == s.N {
+					break
 				}
 				vsched.Send(src, i)
 				vsched.Log("gen %d", i)
@@ -152,16 +225,23 @@ func scenario(s spec) vx.Scenario {
 			}
 			vsched.Log("map %d", i)
 			vsched.Op("in-mapper")
+			if s.MapFault == "cancel-each" {
+				vsched.Log("cancel-begin mapper-err")
+				cancel(errMapper)
+				vsched.Log("cancel-end")
+			}
 			if s.MapFault != "" && i == s.MapAt {
 				switch s.MapFault {
 				case "cancel-err":
 					vsched.Log("cancel-begin mapper-err")
 					cancel(errMapper)
 					vsched.Log("cancel-end")
+					tellReducer()
 				case "cancel-nil":
 					vsched.Log("cancel-begin nil")
 					cancel(nil)
 					vsched.Log("cancel-end")
+					tellReducer()
 				case "panic":
 					o.gauge.Add(-1)
 					vsched.Log("panic mapper")
@@ -210,6 +290,20 @@ func scenario(s spec) vx.Scenario {
 				writeAt = 1
 			case "sleep-write":
 				writeAt = 0
+			case "no-read":
+				// returns at once: reads nothing, writes nothing
+				vsched.Log("red-nowrite")
+				return
+			case "cancel-first":
+				// cancels before reading anything and returns without draining its pipe
+				vsched.Log("cancel-begin reducer-err")
+				cancel(errReducer)
+				vsched.Log("cancel-end")
+				return
+			case "giveup":
+				// reads nothing; returns, without draining its pipe, once it knows of the failure
+				waitFailure()
+				return
 			}
 			for {
 				if n == writeAt && !wrote && strings.HasPrefix(s.Reducer, "sleep-write") {
@@ -243,9 +337,18 @@ func scenario(s spec) vx.Scenario {
 					vsched.Log("panic reducer")
 					panic(userPanic{"reducer"})
 				}
+				if s.Reducer == "read1-return" && n == 1 {
+					// stops after the first value: no output, the rest of the pipe is left unread
+					vsched.Log("red-nowrite")
+					return
+				}
+				if s.Reducer == "read1-giveup" && n == 1 {
+					waitFailure()
+					return
+				}
 			}
 			switch s.Reducer {
-			case "no-write":
+			case "no-write", "read1-return", "read1-giveup":
 				vsched.Log("red-nowrite")
 			case "cancel":
 				vsched.Log("cancel-begin reducer-err")
@@ -288,7 +391,12 @@ func scenario(s spec) vx.Scenario {
 					i := i
 					fns = append(fns, func() error {
 						var e error
-						mapBody(i, func(int) {}, func(err error) { e = err; if e == nil { e = errMapper } })
+						mapBody(i, func(int) {}, func(err error) {
+							e = err
+							if e == nil {
+								e = errMapper
+							}
+						})
 						return e
 					})
 				}
@@ -397,7 +505,23 @@ func judge(s spec, e *vsched.Exec, o *obs) vx.Verdict {
 					}
 				}
 				key = ":panic-write-unread:" + what
+				if kind == "caller-deadlock" && strings.HasPrefix(mainAt, "select@") {
+					// the listed classes are panics handed to a caller that NO LONGER listens (it has left
+					// its select). Here the caller is still parked in its select - the only select of the
+					// entry points, which has a case for the call's panic channel - and the recovered
+					// panic does not get through to it: a different cause
+					key = ":panic-write-unread-by-selecting-caller:" + what
+				}
 				panicStuck = true
+			}
+		}
+		if !panicStuck && kind == "leak" && stalled == "" {
+			// no user function is being held by the harness, the call has returned, and a mapper
+			// invocation sits in Writer.Write forever: nobody empties the collector any more
+			for _, b := range e.Blocked() {
+				if strings.Contains(b, "(mr.executeMappers") && strings.Contains(b, "chan.send@mr.guardedWriter") {
+					key = ":mapper-parked-in-write" + late
+				}
 			}
 		}
 		if !panicStuck && kind == "caller-deadlock" && stalled != "" {
@@ -421,7 +545,8 @@ func judge(s spec, e *vsched.Exec, o *obs) vx.Verdict {
 	mapped := map[string]int{}
 	var written, reduced []string
 	panicWho := ""
-	cancelled := ""
+	cancelled := ""              // the first cancel invoked
+	cancels := map[string]bool{} // every kind of cancel invoked: the error of any of them justifies the result
 	for _, l := range log {
 		f := strings.Fields(l)
 		switch f[0] {
@@ -436,6 +561,7 @@ func judge(s spec, e *vsched.Exec, o *obs) vx.Verdict {
 				panicWho = f[1]
 			}
 		case "cancel-begin":
+			cancels[f[1]] = true
 			if cancelled == "" {
 				cancelled = f[1]
 			}
@@ -452,11 +578,12 @@ func judge(s spec, e *vsched.Exec, o *obs) vx.Verdict {
 			return vx.Verdict{Class: "mapped-twice", Msg: fmt.Sprintf("item %s handed to the mapper %d times", it, n)}
 		}
 	}
+	limit := s.workers()
 	if s.Entry == "Finish" || s.Entry == "FinishVoid" {
-		s.W = s.N // Finish runs all functions in parallel by design
+		limit = s.N // Finish runs all functions in parallel by design
 	}
-	if o.maxGauge > s.W {
-		return vx.Verdict{Class: "workers-exceeded", Msg: fmt.Sprintf("%d mappers ran concurrently, workers=%d", o.maxGauge, s.W)}
+	if o.maxGauge > limit {
+		return vx.Verdict{Class: "workers-exceeded", Msg: fmt.Sprintf("%d mappers ran concurrently, workers=%d", o.maxGauge, limit)}
 	}
 	ctxEnded := o.ctxErrAtReturn != nil
 	// --- panics ---
@@ -475,16 +602,21 @@ func judge(s spec, e *vsched.Exec, o *obs) vx.Verdict {
 		return vx.Verdict{Sig: "repanic:" + up.who}
 	}
 	// --- errors must be justified ---
+	noOutput := false
 	if o.err != nil {
 		switch {
-		case errors.Is(o.err, errMapper) && (cancelled == "mapper-err" || s.Entry == "Finish"):
-		case errors.Is(o.err, errReducer) && cancelled == "reducer-err":
-		case errors.Is(o.err, mr.ErrCancelWithNil) && cancelled == "nil":
+		case errors.Is(o.err, errMapper) && (cancels["mapper-err"] || s.Entry == "Finish"):
+		case errors.Is(o.err, errReducer) && cancels["reducer-err"]:
+		case errors.Is(o.err, mr.ErrCancelWithNil) && cancels["nil"]:
 		case (errors.Is(o.err, context.DeadlineExceeded) || errors.Is(o.err, context.Canceled)) && ctxEnded:
 		case errors.Is(o.err, mr.ErrReduceNoOutput) && s.Entry != "MapReduceVoid":
 			rwBegin := idx("rw-begin")
+			if panicWho != "" && cancelled == "" && !ctxEnded {
+				return vx.Verdict{Class: "panic-swallowed", Msg: fmt.Sprintf("user %s panicked but the call returned ErrReduceNoOutput", panicWho)}
+			}
 			if idx("red-nowrite") >= 0 {
-				break // the reducer returned without writing: the documented result
+				noOutput = true // the reducer returned without writing: the documented result
+				break
 			}
 			if rwBegin >= 0 && cancelled == "" && !ctxEnded && panicWho == "" {
 				return vx.Verdict{Class: "output-lost", Msg: "reducer wrote its output, nothing was cancelled, but the call returned ErrReduceNoOutput"}
@@ -506,9 +638,13 @@ func judge(s spec, e *vsched.Exec, o *obs) vx.Verdict {
 				return vx.Verdict{Class: "panic-swallowed", Msg: fmt.Sprintf("user %s panicked but the call returned %v", panicWho, o.err)}
 			}
 		}
-		return vx.Verdict{Sig: "err:" + o.err.Error()}
+		if !noOutput || cancelled != "" || ctxEnded {
+			return vx.Verdict{Sig: "err:" + o.err.Error()}
+		}
+		// ErrReduceNoOutput from a reducer that wrote nothing, and nothing was cancelled: the
+		// clauses about mapping and reduction below apply as for a normal return
 	}
-	// --- returned without error ---
+	// --- returned without error (or with the documented "no output") ---
 	if panicWho != "" {
 		return vx.Verdict{Class: "panic-swallowed", Msg: fmt.Sprintf("user %s panicked but the call returned normally (ret=%v)", panicWho, o.ret)}
 	}
@@ -542,14 +678,27 @@ func judge(s spec, e *vsched.Exec, o *obs) vx.Verdict {
 				a, b := append([]string(nil), written...), append([]string(nil), reduced...)
 				sort.Strings(a)
 				sort.Strings(b)
-				if strings.Join(a, ",") != strings.Join(b, ",") {
+				if s.Reducer == "no-read" || s.Reducer == "read1-return" {
+					// the reducer stopped reading of its own accord: what it did read must be values
+					// that were written, each at most once
+					left := map[string]int{}
+					for _, v := range a {
+						left[v]++
+					}
+					for _, v := range b {
+						if left[v]--; left[v] < 0 {
+							return vx.Verdict{Class: "reduced-not-written-once", Msg: fmt.Sprintf("values written %v, values reduced %v", a, b)}
+						}
+					}
+				} else if strings.Join(a, ",") != strings.Join(b, ",") {
 					return vx.Verdict{Class: "reduction-incomplete", Msg: fmt.Sprintf("values written %v, values reduced %v", a, b)}
 				}
 			}
 		}
 		if s.Entry == "MapReduce" || s.Entry == "MapReduceChan" {
-			switch s.Reducer {
-			case "no-write":
+			switch {
+			case noOutput:
+			case silentReducer(s.Reducer):
 				return vx.Verdict{Class: "missing-no-output-error", Msg: fmt.Sprintf("reducer wrote nothing but the call returned (%v, nil)", o.ret)}
 			default:
 				want := 0
@@ -561,6 +710,9 @@ func judge(s spec, e *vsched.Exec, o *obs) vx.Verdict {
 				}
 			}
 		}
+	}
+	if noOutput {
+		return vx.Verdict{Sig: "err:" + o.err.Error()}
 	}
 	return vx.Verdict{Sig: fmt.Sprintf("ok:mapped=%d,reduced=%d,max=%d", len(mapped), len(reduced), o.maxGauge)}
 }
@@ -649,192 +801,429 @@ func main() {
 		have[s.name()] = true
 		sc = append(sc, scenario(s))
 	}
-	base := spec{GenPanic: -1, GenStallAt: -1}
-	// fault-free matrix
-	for _, n := range []int{0, 1, 2, 3} {
+	build := func(thorough bool) {
+		base := spec{GenPanic: -1, GenStallAt: -1}
+		// fault-free matrix
+		for _, n := range []int{0, 1, 2, 3} {
+			for _, w := range []int{1, 2} {
+				if n == 3 && w == 2 && !thorough {
+					continue
+				}
+				for _, fan := range []int{0, 1, 2} {
+					if fan == 2 && n > 2 {
+						continue
+					}
+					s := base
+					s.Entry, s.N, s.W, s.Fan = "MapReduce", n, w, fan
+					add(s)
+				}
+				for _, en := range []string{"MapReduceVoid", "MapReduceChan", "ForEach", "Finish", "FinishVoid"} {
+					if n == 3 && en != "ForEach" {
+						continue
+					}
+					s := base
+					s.Entry, s.N, s.W, s.Fan = en, n, w, 1
+					if (en == "Finish" || en == "FinishVoid") && w == 2 {
+						continue // workers = len(fns)
+					}
+					add(s)
+				}
+			}
+		}
+		for _, red := range []string{"no-write", "write-early"} {
+			s := base
+			s.Entry, s.N, s.W, s.Fan, s.Reducer = "MapReduce", 2, 2, 1, red
+			add(s)
+		}
+		// single-fault matrix
 		for _, w := range []int{1, 2} {
-			if n == 3 && w == 2 && !cfg.Thorough() {
-				continue
+			n := 2
+			for _, mf := range []string{"cancel-err", "cancel-nil", "panic"} {
+				for _, at := range []int{0, n - 1} {
+					s := base
+					s.Entry, s.N, s.W, s.Fan, s.MapFault, s.MapAt = "MapReduce", n, w, 1, mf, at
+					add(s)
+				}
 			}
-			for _, fan := range []int{0, 1, 2} {
-				if fan == 2 && n > 2 {
+			for _, gp := range []int{0, 1} {
+				s := base
+				s.Entry, s.N, s.W, s.Fan, s.GenPanic = "MapReduce", n, w, 1, gp
+				add(s)
+			}
+			for _, red := range []string{"cancel", "panic"} {
+				s := base
+				s.Entry, s.N, s.W, s.Fan, s.Reducer = "MapReduce", n, w, 1, red
+				add(s)
+			}
+			for _, cx := range []string{"timeout", "cancel"} {
+				s := base
+				s.Entry, s.N, s.W, s.Fan, s.Ctx = "MapReduce", n, w, 1, cx
+				if cx == "cancel" && !thorough {
+					s.N = 1 // the canceller thread multiplies the schedule space: one item in the quick tier
+				}
+				add(s)
+				s.MapFault, s.MapAt = "stall", 0
+				add(s)
+			}
+		}
+		for _, en := range []string{"MapReduceVoid", "ForEach", "Finish"} {
+			for _, mf := range []string{"cancel-err", "panic"} {
+				if en == "ForEach" && mf == "cancel-err" {
 					continue
 				}
 				s := base
-				s.Entry, s.N, s.W, s.Fan = "MapReduce", n, w, fan
-				add(s)
-			}
-			for _, en := range []string{"MapReduceVoid", "MapReduceChan", "ForEach", "Finish", "FinishVoid"} {
-				if n == 3 && en != "ForEach" {
-					continue
-				}
-				s := base
-				s.Entry, s.N, s.W, s.Fan = en, n, w, 1
-				if (en == "Finish" || en == "FinishVoid") && w == 2 {
-					continue // workers = len(fns)
-				}
+				s.Entry, s.N, s.W, s.Fan, s.MapFault, s.MapAt = en, 2, 2, 1, mf, 1
 				add(s)
 			}
 		}
-	}
-	for _, red := range []string{"no-write", "write-early"} {
-		s := base
-		s.Entry, s.N, s.W, s.Fan, s.Reducer = "MapReduce", 2, 2, 1, red
-		add(s)
-	}
-	// single-fault matrix
-	for _, w := range []int{1, 2} {
-		n := 2
-		for _, mf := range []string{"cancel-err", "cancel-nil", "panic"} {
-			for _, at := range []int{0, n - 1} {
-				s := base
-				s.Entry, s.N, s.W, s.Fan, s.MapFault, s.MapAt = "MapReduce", n, w, 1, mf, at
-				add(s)
-			}
-		}
-		for _, gp := range []int{0, 1} {
-			s := base
-			s.Entry, s.N, s.W, s.Fan, s.GenPanic = "MapReduce", n, w, 1, gp
-			add(s)
-		}
-		for _, red := range []string{"cancel", "panic"} {
-			s := base
-			s.Entry, s.N, s.W, s.Fan, s.Reducer = "MapReduce", n, w, 1, red
-			add(s)
-		}
-		for _, cx := range []string{"timeout", "cancel"} {
-			s := base
-			s.Entry, s.N, s.W, s.Fan, s.Ctx = "MapReduce", n, w, 1, cx
-			if cx == "cancel" && !cfg.Thorough() {
-				s.N = 1 // the canceller thread multiplies the schedule space: one item in the quick tier
+		// the families below (session 4): in the thorough tier the one-item instances run with the
+		// tier's bounds (P=2), the larger ones with P=1,T=1 - the tier is time-boxed and the full
+		// cross products are wide
+		addNew := func(s spec) {
+			if thorough && s.bound == nil && s.N > 1 {
+				s.bound = &vx.Bounds{P: 1, T: 1}
 			}
 			add(s)
-			s.MapFault, s.MapAt = "stall", 0
-			add(s)
 		}
-	}
-	for _, en := range []string{"MapReduceVoid", "ForEach", "Finish"} {
-		for _, mf := range []string{"cancel-err", "panic"} {
-			if en == "ForEach" && mf == "cancel-err" {
-				continue
-			}
-			s := base
-			s.Entry, s.N, s.W, s.Fan, s.MapFault, s.MapAt = en, 2, 2, 1, mf, 1
-			add(s)
-		}
-	}
-	// fault pairs
-	pairs := []spec{
-		{Entry: "MapReduce", N: 2, W: 2, Fan: 1, GenPanic: -1, MapFault: "panic", MapAt: 1, Reducer: "write-early"},
-		{Entry: "MapReduce", N: 2, W: 2, Fan: 1, GenPanic: -1, MapFault: "panic", MapAt: 0, Ctx: "timeout"},
-		{Entry: "MapReduce", N: 2, W: 2, Fan: 1, GenPanic: -1, MapFault: "cancel-err", MapAt: 0, Reducer: "write-early"},
-		{Entry: "MapReduce", N: 2, W: 1, Fan: 1, GenPanic: -1, MapFault: "cancel-err", MapAt: 1, Reducer: "panic"},
-		{Entry: "MapReduce", N: 2, W: 2, Fan: 1, GenPanic: 1, MapFault: "cancel-nil", MapAt: 0},
-		{Entry: "MapReduce", N: 2, W: 1, Fan: 1, GenPanic: -1, MapFault: "cancel-err", MapAt: 0, Ctx: "timeout"},
-		{Entry: "MapReduce", N: 2, W: 1, Fan: 1, GenPanic: -1, MapFault: "cancel-err", MapAt: 1, Ctx: "timeout"},
-		{Entry: "MapReduce", N: 1, W: 2, Fan: 1, GenPanic: -1, MapFault: "cancel-nil", MapAt: 0, Ctx: "timeout"},
-		{Entry: "MapReduce", N: 2, W: 1, Fan: 1, GenPanic: -1, Reducer: "cancel", Ctx: "timeout"},
-		{Entry: "MapReduce", N: 1, W: 1, Fan: 1, GenPanic: -1, MapFault: "cancel-err", MapAt: 0, Ctx: "cancel"},
-	}
-	if cfg.Thorough() {
-		pairs = append(pairs,
-			spec{Entry: "MapReduce", N: 2, W: 2, Fan: 1, GenPanic: -1, MapFault: "cancel-err", MapAt: 0, Ctx: "timeout"},
-			spec{Entry: "MapReduce", N: 2, W: 2, Fan: 1, GenPanic: -1, MapFault: "cancel-nil", MapAt: 1, Ctx: "timeout"},
-			spec{Entry: "MapReduce", N: 2, W: 2, Fan: 1, GenPanic: -1, Reducer: "cancel", Ctx: "timeout"},
-			spec{Entry: "MapReduce", N: 3, W: 2, Fan: 1, GenPanic: -1, MapFault: "panic", MapAt: 2, Reducer: "cancel"},
-			spec{Entry: "MapReduce", N: 3, W: 2, Fan: 2, GenPanic: -1, MapFault: "cancel-err", MapAt: 1, Ctx: "cancel"},
-			spec{Entry: "MapReduceChan", N: 2, W: 2, Fan: 1, GenPanic: -1, MapFault: "panic", MapAt: 0, Ctx: "cancel"},
-			spec{Entry: "MapReduce", N: 3, W: 2, Fan: 1, GenPanic: 2, Reducer: "write-early"})
-	}
-	for _, s := range pairs {
-		add(s)
-	}
-	// the end of the context crossed with what the user functions are doing at that moment:
-	//   generator {normal, slow before item i / before returning, held until the call returned, panics}
-	// × context end {deadline on the virtual clock (timer deviation), cancellation by another thread}
-	// × reducer write timing {drains then writes, writes after 1 read (then drains / then returns), writes first}
-	// × mapper {normal, stalls before writing, writes then stalls}
-	type genT struct {
-		stall string
-		at    int
-		panic int
-	}
-	gens := []genT{{"", -1, -1}, {"slow", 1, -1}, {"", -1, 1}}
-	reds := []string{"drain-write", "write-mid", "write-early", "write-first"}
-	maps := []string{"", "stall", "write-stall"}
-	ctxs := []string{"timeout", "cancel"}
-	ws := []int{1}
-	if cfg.Thorough() {
-		gens = append(gens, genT{"slow", 2, -1}, genT{"slow", 0, -1})
-		ws = []int{1, 2}
-	}
-	for _, w := range ws {
-		for _, cx := range ctxs {
-			for _, g := range gens {
-				for _, red := range reds {
-					for _, mf := range maps {
-						if mf == "stall" && w == 1 && (red == "write-mid" || red == "write-early") {
-							continue // one worker, stalled before writing: the reducer never reads, same as drain-write
+		// every fault of the menu through EVERY public entry point it can be placed in (one small
+		// instance each; MapReduce itself is in the matrix above), and the ways of passing options
+		{
+			n, w := 2, 2
+			for _, en := range []string{"MapReduceVoid", "MapReduceChan", "ForEach"} {
+				gen := en != "MapReduceChan" // MapReduceChan: the source belongs to the caller, no generate function
+				full := en != "ForEach"      // ForEach: no writer, no cancel, no reducer
+				if gen {
+					for _, gp := range []int{0, 1, 2} { // before any item, between items, after the last item
+						s := base
+						s.Entry, s.N, s.W, s.Fan, s.GenPanic = en, n, w, 1, gp
+						if gp == n && !thorough {
+							s.W = 1 // everything has been generated: the whole pipeline is under way; one worker in the quick tier
 						}
-						if g.stall == "slow" && !cfg.Thorough() && (mf == "stall" || red == "write-early") {
-							continue // quick tier: with a slow generator only the mapper that writes before it stalls, and write-mid for "after 1 read"
+						addNew(s)
+					}
+				}
+				mfs := []string{"panic"}
+				if full {
+					mfs = []string{"cancel-err", "cancel-nil", "panic"}
+				}
+				for _, mf := range mfs {
+					for _, at := range []int{0, 1} {
+						if !thorough && full && at != map[string]int{"cancel-err": 0, "cancel-nil": 1, "panic": 1}[mf] {
+							continue // quick tier: one position per kind of fault (both positions through MapReduce above)
 						}
 						s := base
-						s.Entry, s.N, s.W, s.Fan, s.Ctx, s.Reducer = "MapReduce", 2, w, 1, cx, red
-						s.GenStall, s.GenStallAt, s.GenPanic = g.stall, g.at, g.panic
-						s.MapFault, s.MapAt = mf, 0
-						slow := s.GenStall == "slow"
+						s.Entry, s.N, s.W, s.Fan, s.MapFault, s.MapAt = en, n, w, 1, mf, at
+						if !thorough && en == "MapReduceChan" {
+							s.W = 1 // quick tier: two mappers side by side through MapReduce and MapReduceVoid
+						}
+						addNew(s)
+					}
+				}
+				if full {
+					for _, red := range []string{"cancel", "panic", "no-write", "write-early"} {
+						if en == "MapReduceVoid" && (red == "no-write" || red == "write-early") {
+							continue // a void reducer has no writer
+						}
+						if red == "write-early" && !thorough {
+							continue
+						}
+						s := base
+						s.Entry, s.N, s.W, s.Fan, s.Reducer = en, n, w, 1, red
+						if !thorough && red == "cancel" {
+							s.W = 1
+						}
+						addNew(s)
+					}
+				}
+				for _, cx := range []string{"timeout", "cancel"} {
+					s := base
+					s.Entry, s.N, s.W, s.Fan, s.Ctx = en, n, 1, 1, cx
+					if !thorough {
+						s.N = 1 // the end of the context can fall anywhere: one item in the quick tier
+						if cx == "cancel" && en == "MapReduceVoid" {
+							continue // MapReduceVoid runs through MapReduce: cancellation by another thread in the thorough tier
+						}
+					}
+					addNew(s)
+					if full {
+						s.MapFault, s.MapAt = "stall", 0
+						addNew(s)
+					}
+				}
+			}
+			// the generator of MapReduce panicking after its last item (positions 0 and 1 are above)
+			for _, w := range []int{1, 2} {
+				if w == 2 && !thorough {
+					continue
+				}
+				s := base
+				s.Entry, s.N, s.W, s.Fan, s.GenPanic = "MapReduce", n, w, 1, 2
+				addNew(s)
+			}
+			for _, mf := range []string{"cancel-err", "panic"} {
+				for _, at := range []int{0, 1} {
+					s := base
+					s.Entry, s.N, s.W, s.Fan, s.MapFault, s.MapAt = "Finish", n, n, 1, mf, at
+					addNew(s)
+					if mf == "panic" {
+						s.Entry = "FinishVoid"
+						addNew(s)
+					}
+				}
+			}
+			// options: none at all (16 workers, background context), WithWorkers below the minimum
+			// (one worker), WithContext before WithWorkers
+			for _, en := range []string{"MapReduce", "MapReduceVoid", "MapReduceChan", "ForEach"} {
+				for _, op := range []string{"none", "w0", "w-1"} {
+					s := base
+					s.Entry, s.N, s.W, s.Fan, s.Opts = en, 2, 2, 1, op
+					if op == "none" {
+						s.N = 3
+						if !thorough {
+							s.bound = &vx.Bounds{P: 0, T: 0} // three mappers side by side: schedule space of N=3,W=3
+						}
+					}
+					addNew(s)
+					if en == "MapReduce" && op != "w-1" {
+						s.N, s.bound = 2, nil
+						s.MapFault, s.MapAt = "cancel-err", 1
+						addNew(s)
+						s.MapFault, s.GenPanic = "", 1
+						addNew(s)
+					}
+				}
+			}
+			for _, cx := range []string{"timeout", "cancel"} {
+				if cx == "cancel" && !thorough {
+					continue
+				}
+				s := base
+				s.Entry, s.N, s.W, s.Fan, s.Ctx, s.Opts = "MapReduce", 1, 1, 1, cx, "ctx-first"
+				addNew(s)
+			}
+		}
+		// competing cancels (every mapper cancels; a mapper and the reducer cancel), a context that is
+		// over before the call begins (through every entry point that takes options), and a generator
+		// parked on its send with several items left when the cancel comes
+		for _, s := range []spec{
+			{Entry: "MapReduce", N: 2, W: 2, Fan: 1, GenPanic: -1, MapFault: "cancel-each"},
+			{Entry: "MapReduce", N: 2, W: 1, Fan: 1, GenPanic: -1, MapFault: "cancel-each"},
+			{Entry: "Finish", N: 2, W: 2, Fan: 1, GenPanic: -1, MapFault: "cancel-each"},
+			{Entry: "MapReduce", N: 2, W: 2, Fan: 1, GenPanic: -1, MapFault: "cancel-err", MapAt: 0, Reducer: "cancel"},
+			{Entry: "MapReduce", N: 2, W: 2, Fan: 1, GenPanic: -1, MapFault: "cancel-nil", MapAt: 1, Reducer: "cancel-first"},
+			{Entry: "MapReduce", N: 2, W: 2, Fan: 1, GenPanic: -1, Ctx: "ended"},
+			{Entry: "MapReduce", N: 2, W: 1, Fan: 1, GenPanic: -1, Ctx: "ended", Reducer: "write-first"},
+			{Entry: "MapReduceVoid", N: 1, W: 1, Fan: 1, GenPanic: -1, Ctx: "ended"},
+			{Entry: "MapReduceChan", N: 1, W: 1, Fan: 1, GenPanic: -1, Ctx: "ended"},
+			{Entry: "ForEach", N: 2, W: 2, Fan: 1, GenPanic: -1, Ctx: "ended"},
+			{Entry: "MapReduce", N: 2, W: 1, Fan: 1, GenPanic: 1, Ctx: "ended"},
+			{Entry: "MapReduce", N: 3, W: 1, Fan: 1, GenPanic: -1, MapFault: "cancel-err", MapAt: 0},
+			{Entry: "MapReduceChan", N: 3, W: 1, Fan: 1, GenPanic: -1, MapFault: "cancel-nil", MapAt: 0},
+		} {
+			addNew(s)
+		}
+		if thorough {
+			addNew(spec{Entry: "MapReduce", N: 3, W: 1, Fan: 1, GenPanic: -1, Reducer: "cancel"})
+			addNew(spec{Entry: "MapReduceVoid", N: 2, W: 2, Fan: 1, GenPanic: -1, Ctx: "ended"})
+			addNew(spec{Entry: "MapReduceChan", N: 2, W: 2, Fan: 1, GenPanic: -1, Ctx: "ended"})
+		}
+		// back-pressure: a mapper writes more values than the collector holds (its capacity is the
+		// worker count) and is PARKED inside Writer.Write when the call is cancelled / the context ends /
+		// somebody panics, crossed with reducers that stop reading of their own accord: return at once,
+		// return after the first value, cancel (before / after the first value) and return, give up
+		// without reading once they know of the failure, write early and return
+		{
+			type inst struct{ n, w, fan int }
+			// one mapper; two mappers one after the other; two mappers side by side (N ≤ W: both dispatched)
+			one, two, par := inst{1, 1, 3}, inst{2, 1, 2}, inst{2, 2, 3}
+			// quick tier, larger instances: no preemption, but the deadline may pass at every blocking
+			// point (T=1), in particular with the mapper parked
+			quiet := &vx.Bounds{P: 0, T: 1}
+			mk := func(en string, in inst, mf string, at int, red, cx string, b *vx.Bounds) {
+				s := base
+				s.Entry, s.N, s.W, s.Fan, s.MapFault, s.MapAt, s.Reducer, s.Ctx = en, in.n, in.w, in.fan, mf, at, red, cx
+				if in == one && (red == "giveup" || red == "no-read" || red == "cancel-first") {
+					s.Fan = 2 // nothing is read: the second write already finds the collector full
+				}
+				s.bound = b
+				addNew(s)
+			}
+			th := thorough
+			for _, in := range []inst{one, two, par} {
+				small := in != par
+				// nothing is cancelled: all values through a collector smaller than the fan-out
+				for _, red := range []string{"drain-write", "read1-return", "no-read", "write-early"} {
+					if th || small || red == "drain-write" || red == "read1-return" {
+						mk("MapReduce", in, "", 0, red, "", nil)
+					}
+				}
+				// the reducer ends the call and does not drain
+				for _, red := range []string{"cancel", "cancel-first", "panic"} {
+					if th || small || red == "cancel" {
+						mk("MapReduce", in, "", 0, red, "", nil)
+					}
+				}
+				// the context ends while a mapper is parked
+				for _, cx := range []string{"timeout", "cancel"} {
+					for _, red := range []string{"giveup", "read1-giveup", "drain-write"} {
 						switch {
-						case cx == "cancel" && slow:
-							// two helper threads (canceller, releaser): every placement of both at the
-							// blocking points of the others, without preemptions
-							s.bound = &vx.Bounds{P: 0, T: 0}
-						case cx == "cancel" && !cfg.Thorough():
-							// the canceller thread multiplies the schedule space: one item in the quick tier
-							s.N = 1
-							if s.GenPanic > 0 {
-								s.GenPanic = 0
+						case th || (in == one && cx == "timeout" && red != "giveup"):
+							// (a deadline with T=1 and cancellation by another thread both put the end of
+							// the context everywhere: the quick tier keeps the former)
+							mk("MapReduce", in, "", 0, red, cx, nil)
+						case in != par && cx == "timeout" && red != "drain-write":
+							mk("MapReduce", in, "", 0, red, cx, quiet)
+						}
+					}
+				}
+			}
+			// another mapper cancels / panics while the first one is parked; with one worker the second
+			// mapper runs after the first got rid of its values
+			for _, mf := range []string{"cancel-err", "cancel-nil", "panic"} {
+				for _, red := range []string{"giveup", "read1-giveup", "read1-return", "drain-write"} {
+					if mf == "panic" && strings.HasSuffix(red, "giveup") {
+						continue // a panicking mapper cannot tell the reducer
+					}
+					if th || (mf == "cancel-err" && red == "giveup") || (mf == "panic" && red == "read1-return") {
+						mk("MapReduce", par, mf, 1, red, "", nil)
+					}
+					if red != "giveup" && (th || mf != "cancel-nil") { // one worker: a reducer that reads nothing keeps the second mapper from ever starting
+						mk("MapReduce", two, mf, 1, red, "", nil)
+					}
+				}
+			}
+			// the other entry points that have a collector
+			for _, en := range []string{"MapReduceVoid", "MapReduceChan"} {
+				mk(en, one, "", 0, "cancel", "", nil)
+				mk(en, one, "", 0, "read1-return", "", nil)
+				if th {
+					mk(en, one, "", 0, "giveup", "timeout", nil)
+					mk(en, par, "cancel-err", 1, "giveup", "", nil)
+				} else {
+					mk(en, one, "", 0, "giveup", "timeout", quiet)
+				}
+			}
+		}
+		// fault pairs
+		pairs := []spec{
+			{Entry: "MapReduce", N: 2, W: 2, Fan: 1, GenPanic: -1, MapFault: "panic", MapAt: 1, Reducer: "write-early"},
+			{Entry: "MapReduce", N: 2, W: 2, Fan: 1, GenPanic: -1, MapFault: "panic", MapAt: 0, Ctx: "timeout"},
+			{Entry: "MapReduce", N: 2, W: 2, Fan: 1, GenPanic: -1, MapFault: "cancel-err", MapAt: 0, Reducer: "write-early"},
+			{Entry: "MapReduce", N: 2, W: 1, Fan: 1, GenPanic: -1, MapFault: "cancel-err", MapAt: 1, Reducer: "panic"},
+			{Entry: "MapReduce", N: 2, W: 2, Fan: 1, GenPanic: 1, MapFault: "cancel-nil", MapAt: 0},
+			{Entry: "MapReduce", N: 2, W: 1, Fan: 1, GenPanic: -1, MapFault: "cancel-err", MapAt: 0, Ctx: "timeout"},
+			{Entry: "MapReduce", N: 2, W: 1, Fan: 1, GenPanic: -1, MapFault: "cancel-err", MapAt: 1, Ctx: "timeout"},
+			{Entry: "MapReduce", N: 1, W: 2, Fan: 1, GenPanic: -1, MapFault: "cancel-nil", MapAt: 0, Ctx: "timeout"},
+			{Entry: "MapReduce", N: 2, W: 1, Fan: 1, GenPanic: -1, Reducer: "cancel", Ctx: "timeout"},
+			{Entry: "MapReduce", N: 1, W: 1, Fan: 1, GenPanic: -1, MapFault: "cancel-err", MapAt: 0, Ctx: "cancel"},
+		}
+		if thorough {
+			pairs = append(pairs,
+				spec{Entry: "MapReduce", N: 2, W: 2, Fan: 1, GenPanic: -1, MapFault: "cancel-err", MapAt: 0, Ctx: "timeout"},
+				spec{Entry: "MapReduce", N: 2, W: 2, Fan: 1, GenPanic: -1, MapFault: "cancel-nil", MapAt: 1, Ctx: "timeout"},
+				spec{Entry: "MapReduce", N: 2, W: 2, Fan: 1, GenPanic: -1, Reducer: "cancel", Ctx: "timeout"},
+				spec{Entry: "MapReduce", N: 3, W: 2, Fan: 1, GenPanic: -1, MapFault: "panic", MapAt: 2, Reducer: "cancel"},
+				spec{Entry: "MapReduce", N: 3, W: 2, Fan: 2, GenPanic: -1, MapFault: "cancel-err", MapAt: 1, Ctx: "cancel"},
+				spec{Entry: "MapReduceChan", N: 2, W: 2, Fan: 1, GenPanic: -1, MapFault: "panic", MapAt: 0, Ctx: "cancel"},
+				spec{Entry: "MapReduce", N: 3, W: 2, Fan: 1, GenPanic: 2, Reducer: "write-early"})
+		}
+		for _, s := range pairs {
+			add(s)
+		}
+		// the end of the context crossed with what the user functions are doing at that moment:
+		//   generator {normal, slow before item i / before returning, held until the call returned, panics}
+		// × context end {deadline on the virtual clock (timer deviation), cancellation by another thread}
+		// × reducer write timing {drains then writes, writes after 1 read (then drains / then returns), writes first}
+		// × mapper {normal, stalls before writing, writes then stalls}
+		type genT struct {
+			stall string
+			at    int
+			panic int
+		}
+		gens := []genT{{"", -1, -1}, {"slow", 1, -1}, {"", -1, 1}}
+		reds := []string{"drain-write", "write-mid", "write-early", "write-first"}
+		maps := []string{"", "stall", "write-stall"}
+		ctxs := []string{"timeout", "cancel"}
+		ws := []int{1}
+		if thorough {
+			gens = append(gens, genT{"slow", 2, -1}, genT{"slow", 0, -1})
+			ws = []int{1, 2}
+		}
+		for _, w := range ws {
+			for _, cx := range ctxs {
+				for _, g := range gens {
+					for _, red := range reds {
+						for _, mf := range maps {
+							if mf == "stall" && w == 1 && (red == "write-mid" || red == "write-early") {
+								continue // one worker, stalled before writing: the reducer never reads, same as drain-write
 							}
-						case cfg.Thorough() && (w == 2 || slow || cx == "cancel" || mf != "" || g.panic >= 0):
-							s.bound = &vx.Bounds{P: 1, T: 1} // the rest of the family runs with the tier's P=2
-						}
-						add(s)
-						if cfg.Thorough() && cx == "cancel" && slow && w == 1 && s.GenStallAt <= 1 {
-							// and with one preemption on the one-item instance
-							s.N, s.bound = 1, &vx.Bounds{P: 1, T: 0}
+							if g.stall == "slow" && !thorough && (mf == "stall" || red == "write-early") {
+								continue // quick tier: with a slow generator only the mapper that writes before it stalls, and write-mid for "after 1 read"
+							}
+							s := base
+							s.Entry, s.N, s.W, s.Fan, s.Ctx, s.Reducer = "MapReduce", 2, w, 1, cx, red
+							s.GenStall, s.GenStallAt, s.GenPanic = g.stall, g.at, g.panic
+							s.MapFault, s.MapAt = mf, 0
+							slow := s.GenStall == "slow"
+							switch {
+							case cx == "cancel" && slow:
+								// two helper threads (canceller, releaser): every placement of both at the
+								// blocking points of the others, without preemptions
+								s.bound = &vx.Bounds{P: 0, T: 0}
+							case cx == "cancel" && !thorough:
+								// the canceller thread multiplies the schedule space: one item in the quick tier
+								s.N = 1
+								if s.GenPanic > 0 {
+									s.GenPanic = 0
+								}
+							case thorough && (w == 2 || slow || cx == "cancel" || mf != "" || g.panic >= 0):
+								s.bound = &vx.Bounds{P: 1, T: 1} // the rest of the family runs with the tier's P=2
+							}
 							add(s)
+							if thorough && cx == "cancel" && slow && w == 1 && s.GenStallAt <= 1 {
+								// and with one preemption on the one-item instance
+								s.N, s.bound = 1, &vx.Bounds{P: 1, T: 0}
+								add(s)
+							}
 						}
 					}
 				}
 			}
 		}
-	}
-	// a generator held until the call has returned (the convention for a stalled mapper applied
-	// to the generator): the call has to come back when the context ends or somebody cancels
-	for _, s := range []spec{
-		{Entry: "MapReduce", N: 2, W: 1, Fan: 1, GenPanic: -1, GenStall: "held", GenStallAt: 1, Ctx: "timeout"},
-		{Entry: "MapReduce", N: 2, W: 1, Fan: 1, GenPanic: -1, GenStall: "held", GenStallAt: 1, Ctx: "timeout", Reducer: "write-mid"},
-		{Entry: "MapReduce", N: 2, W: 2, Fan: 1, GenPanic: -1, GenStall: "held", GenStallAt: 1, MapFault: "cancel-err", MapAt: 0},
-		{Entry: "MapReduce", N: 2, W: 2, Fan: 1, GenPanic: -1, GenStall: "held", GenStallAt: 1, Reducer: "cancel"},
-		{Entry: "MapReduce", N: 2, W: 2, Fan: 1, GenPanic: -1, GenStall: "held", GenStallAt: 1, MapFault: "panic", MapAt: 0},
-	} {
-		add(s)
-	}
-	// a cancel that is BLOCKED (parked in drain(source) behind a generator asleep on the virtual
-	// clock for 2h) while the reducer, asleep for 1h, delivers its output at global quiescence;
-	// T=0, so the timers fire only when no thread is enabled
-	for _, w := range []int{1, 2} {
-		for _, k := range []int{1, 2} {
-			for _, mf := range []string{"cancel-err", "cancel-nil"} {
-				for _, red := range []string{"sleep-write", "sleep-write-mid"} {
-					if red == "sleep-write-mid" && !(w == 2 && k == 2) {
-						continue // the reducer gets a value to read only from a second mapper running beside the canceller
+		// a generator held until the call has returned (the convention for a stalled mapper applied
+		// to the generator): the call has to come back when the context ends or somebody cancels
+		for _, s := range []spec{
+			{Entry: "MapReduce", N: 2, W: 1, Fan: 1, GenPanic: -1, GenStall: "held", GenStallAt: 1, Ctx: "timeout"},
+			{Entry: "MapReduce", N: 2, W: 1, Fan: 1, GenPanic: -1, GenStall: "held", GenStallAt: 1, Ctx: "timeout", Reducer: "write-mid"},
+			{Entry: "MapReduce", N: 2, W: 2, Fan: 1, GenPanic: -1, GenStall: "held", GenStallAt: 1, MapFault: "cancel-err", MapAt: 0},
+			{Entry: "MapReduce", N: 2, W: 2, Fan: 1, GenPanic: -1, GenStall: "held", GenStallAt: 1, Reducer: "cancel"},
+			{Entry: "MapReduce", N: 2, W: 2, Fan: 1, GenPanic: -1, GenStall: "held", GenStallAt: 1, MapFault: "panic", MapAt: 0},
+		} {
+			add(s)
+		}
+		// a cancel that is BLOCKED (parked in drain(source) behind a generator asleep on the virtual
+		// clock for 2h) while the reducer, asleep for 1h, delivers its output at global quiescence;
+		// T=0, so the timers fire only when no thread is enabled
+		for _, w := range []int{1, 2} {
+			for _, k := range []int{1, 2} {
+				for _, mf := range []string{"cancel-err", "cancel-nil"} {
+					for _, red := range []string{"sleep-write", "sleep-write-mid"} {
+						if red == "sleep-write-mid" && !(w == 2 && k == 2) {
+							continue // the reducer gets a value to read only from a second mapper running beside the canceller
+						}
+						add(spec{Entry: "MapReduce", N: 2, W: w, Fan: 1, GenPanic: -1, GenStall: "late", GenStallAt: k,
+							MapFault: mf, MapAt: 0, Reducer: red, bound: &vx.Bounds{P: 1, T: 0}})
 					}
-					add(spec{Entry: "MapReduce", N: 2, W: w, Fan: 1, GenPanic: -1, GenStall: "late", GenStallAt: k,
-						MapFault: mf, MapAt: 0, Reducer: red, bound: &vx.Bounds{P: 1, T: 0}})
 				}
 			}
 		}
+	}
+	if cfg.Replay != "" {
+		// a replay names its scenario: look it up among the scenarios of both tiers
+		build(false)
+		build(true)
+	} else {
+		build(cfg.Thorough())
 	}
 	if os.Getenv("VERIF_C10_LIST") != "" { // development aid: print the scenario names of this tier
 		for _, x := range sc {
@@ -843,5 +1232,5 @@ func main() {
 		os.Exit(0)
 	}
 	vx.Main(cfg, r, sc, vx.Bounds{P: 1, T: 1}, vx.Bounds{P: 2, T: 1},
-		"every interleaving (preemption bound / timer-deviation bound per scenario in the evidence) of small MapReduce instances (0-3 items, 1-2 workers, fan-out 0-2, six entry points) crossed with single faults and fault pairs placed in generator, mapper, reducer or the context; an execution is distinct/non-trivial by (scenario, outcome signature: normal result with mapped/reduced counts and peak mappers, justified error, re-raised user panic)")
+		"every interleaving (preemption bound / timer-deviation bound per scenario in the evidence) of small MapReduce instances (0-3 items, 1-2 workers or the default / clamped worker count, fan-out 0-3 incl. more values than the collector holds, six entry points, four ways of passing options) crossed with single faults and fault pairs placed in generator, mapper, reducer (incl. reducers that stop reading without draining) or the context, every fault through every entry point it can be placed in; an execution is distinct/non-trivial by (scenario, outcome signature: normal result with mapped/reduced counts and peak mappers, justified error, re-raised user panic)")
 }
